@@ -1,6 +1,7 @@
 import DriverLib.Chain
 import NotationCore.Model.Jws
 import NotationCore.Model.Cose
+import NotationCore.Spec.EnvMonitors
 /-! driver handlers: envelope read side (JWS) -/
 namespace DriverLib
 open Lean NotationCore NotationCore.Base
@@ -81,13 +82,63 @@ def jwsEnvOf (j : Json) : E Jws.Env := do
          sigLen := ← fldNat j "sigLen", x5c, leafKey := ← keyOf (← fld j "leafKey"), sigok,
          agent := ← fldStr j "agent", tst := ← fldStr j "tst" }
 
-/-- in: {env:{…}, chain:{certs,sig,sigSelf}, rawEmpty}; out: {verify:…, content:…} -/
-def handleJwsRead (j : Json) : E Json := do
-  let e ← jwsEnvOf (← fld j "env")
+def akeyOf (j : Json) : E AKey :=
+  match fldOpt j "t" with
+  | some v => do pure (.text (← v.getStr?))
+  | none => do pure (.int (← fldInt j "i"))
+
+def attrOf (j : Json) : E Attr := do
+  pure { key := ← akeyOf (← fld j "key"), critical := ← fldBool j "critical", value := ← fldStr j "value" }
+
+def contentOfJson (j : Json) : E Content := do
+  pure { payload := ← fldStr j "payload", payloadLen := ← fldNat j "payloadLen", cty := ← fldStr j "cty", scheme := ← fldStr j "scheme",
+         signingTime := ← fldTime j "signingTime", expiry := ← fldTime j "expiry", extAttrs := ← fldList j "extAttrs" attrOf,
+         alg := ← fldNat j "alg", chain := ← natList j "chain", sigLen := ← fldNat j "sigLen", agent := ← fldStr j "agent", tst := ← fldStr j "tst" }
+
+/-- monitors on what the implementation returned from Verify() and Content() -/
+def monitorRead (impl : Json) (mon : Bool → Content → Option String) : E (Option String) := do
+  let v ← fld impl "verify"
+  let c ← fld impl "content"
+  if (fldOpt v "panic").isSome || (fldOpt c "panic").isSome || (fldOpt impl "parse_panic").isSome then return some "panic"
+  if (fldOpt impl "verify_not_pure").isSome then return some "verify_not_pure"
+  let vok ← fldBool v "ok"
+  let cok ← fldBool c "ok"
+  if vok && !cok then return some "verify_succeeds_but_content_fails"
+  if vok && cok then
+    if (← fld v "content").compress != (← fld c "content").compress then return some "verify_and_content_differ"
+  if vok then
+    match mon true (← contentOfJson (← fld v "content")) with
+    | some x => return some x
+    | none => pure ()
+  if cok then
+    match mon false (← contentOfJson (← fld c "content")) with
+    | some x => return some x
+    | none => pure ()
+  return none
+
+def specJson (v : Option String) : Json :=
+  match v with
+  | none => jobj [("ok", jbool true)]
+  | some cl => jobj [("ok", jbool false), ("clause", jstr cl)]
+
+/-- in: {env:{…}, chain:{certs,sig,sigSelf}, rawEmpty}; out: {model:{verify:…, content:…}, spec} -/
+def handleJwsRead (prop : String) (j impl : Json) : E Json := do
+  let ej ← fld j "env"
+  let e ← jwsEnvOf ej
   let ci ← chainInfoOf (← fld j "chain")
   let rawEmpty ← fldBool j "rawEmpty"
-  pure (jobj [("verify", outJson (wrapRead rawEmpty ci (Jws.verify e))),
-              ("content", outJson (wrapRead rawEmpty ci (Jws.content e)))])
+  -- exact value tokens of the members, by (key, decoded) position in the member list
+  let exacts : List (String × String × String) ← match fldOpt (← fld ej "prot") "members" with
+    | some ms => arrMap (← ms.getArr?) (fun m => do pure (← fldStr m "key", ← fldStr m "decoded", ← fldStr m "exact"))
+    | none => pure []
+  let exactOf := fun (m : Jws.Member) =>
+    match exacts.reverse.find? (fun t => t.1 == m.key && t.2.1 == m.decoded) with
+    | some t => t.2.2
+    | none => m.decoded
+  let verdict ← monitorRead impl (fun viaVerify c => EnvMonitor.jws prop e exactOf ci viaVerify c)
+  pure (jobj [("model", jobj [("verify", outJson (wrapRead rawEmpty ci (Jws.verify e))),
+                              ("content", outJson (wrapRead rawEmpty ci (Jws.content e)))]),
+              ("spec", specJson verdict)])
 
 end DriverLib
 
@@ -124,12 +175,14 @@ def coseEnvOf (j : Json) : E Cose.Env := do
          payloadNil := ← fldBool j "payloadNil", payload := ← fldStr j "payload", payloadLen := ← fldNat j "payloadLen",
          sigLen := ← fldNat j "sigLen", sigok := ← fldBool j "sigok", agent := ← fldStr j "agent", tst := ← fldStr j "tst" }
 
-/-- in: {env:{…}, chain:{certs,sig,sigSelf}, rawEmpty}; out: {verify:…, content:…} -/
-def handleCoseRead (j : Json) : E Json := do
+/-- in: {env:{…}, chain:{certs,sig,sigSelf}, rawEmpty}; out: {model:{verify:…, content:…}, spec} -/
+def handleCoseRead (prop : String) (j impl : Json) : E Json := do
   let e ← coseEnvOf (← fld j "env")
   let ci ← chainInfoOf (← fld j "chain")
   let rawEmpty ← fldBool j "rawEmpty"
-  pure (jobj [("verify", outJson (wrapRead rawEmpty ci (Cose.verify e))),
-              ("content", outJson (wrapRead rawEmpty ci (Cose.content e)))])
+  let verdict ← monitorRead impl (fun viaVerify c => EnvMonitor.cose prop e ci viaVerify c)
+  pure (jobj [("model", jobj [("verify", outJson (wrapRead rawEmpty ci (Cose.verify e))),
+                              ("content", outJson (wrapRead rawEmpty ci (Cose.content e)))]),
+              ("spec", specJson verdict)])
 
 end DriverLib
